@@ -366,7 +366,10 @@ theorem decUnprot_mapWireN {d : Nat} {h : GoMap} (hf : NestedMapAt (d + 1) h)
     decUnprot (mapWireN h) = .ok ((sortEntries h).map normEntryN) := by
   have hok := C13.validate_labels h false hv
   have hp := sortEntries_perm h
-  obtain ⟨-, -, -, -, hlab, -, hdv⟩ := mapWireN_ok encCfg hf hok hlen hd
+  obtain ⟨-, hwf, hlim, hnt, hlab, -, hdv⟩ := mapWireN_ok encCfg hf hok hlen hd
+  have hscan : headerLabelsUntagged (mapWireN h).bytes = true :=
+    ensureUntagged_bytes_noTag _ hwf (hlim true) hnt
+  unfold mapWireN at hscan
   have hvs : validateHeaderParameters (sortEntries h) false = true := by
     rw [C13.validate_perm_invariant _ _ hp]; exact hv
   have hcs : ∀ e ∈ sortEntries h, isCsigLabel (normVal e.1) = false := by
@@ -377,7 +380,8 @@ theorem decUnprot_mapWireN {d : Nat} {h : GoMap} (hf : NestedMapAt (d + 1) h)
   have hdec := decUnprotPairs_N (sortEntries h)
     (fun e he => ⟨(hf.sorted e he).1, hdv e (hp.mem_iff.mp he)⟩) hcs
   have hvn := validate_normEntryN false hf.sorted (fun e he => hu e (hp.mem_iff.mp he)) hvs
-  simp only [mapWireN, decUnprot, hlab, hdec, hvn, if_true]
+  simp only [mapWireN, decUnprot, hlab, hscan, hdec, hvn, if_true, Bool.not_true,
+    Bool.false_eq_true, if_false]
 
 /-! ### the protected bucket -/
 
@@ -404,16 +408,18 @@ theorem decProtectedContent_mapWireN {h : GoMap} (hf : NestedMap h) (hok : Label
       if validateHeaderParameters ((sortEntries h).map normEntryN) true = true
       then .ok ((sortEntries h).map decEntryN) else .err .other := by
   obtain ⟨b0, rest, hc, hb0⟩ := mapWireN_bytes_cons hlen
-  obtain ⟨-, hwf, hlim, -, hlab, hdec, -⟩ :=
+  obtain ⟨-, hwf, hlim, hnt, hlab, hdec, -⟩ :=
     mapWireN_ok encCfg (d := 0) hf hok hlen (by unfold maxNested; omega)
   have hparse : parseTop true (b0 :: rest)
       = some (.map (HW.shortest h.length) ((sortEntries h).map entryWireN)) := by
     rw [← hc]
     exact parseTop_complete hwf (hlim true)
+  have hscan : headerLabelsUntagged (b0 :: rest) = true :=
+    ensureUntagged_of_parse_noTag _ hparse hnt
   have hoks := labelsOK_sorted hok
   rw [hc]
   simp only [decProtectedContent, hb0, ne_eq, not_true_eq_false, if_false, hparse, hlab, hdec,
-    Out.bind_ok, castAlg_normEntryN (NestedMapAt.sorted (d := 1) hf) hoks]
+    hscan, Bool.not_true, Bool.false_eq_true, Out.bind_ok, castAlg_normEntryN (NestedMapAt.sorted (d := 1) hf) hoks]
   cases validateHeaderParameters ((sortEntries h).map normEntryN) true <;> rfl
 
 theorem algorithmOf_decEntryN {d : Nat} {g : GoMap} (hf : NestedMapAt d g) (hok : LabelsOK g) :
@@ -972,7 +978,8 @@ theorem protected_bucket_roundtrip_nested_needs_distinct :
       encHead, encBstr, HW.shortest, headBytes, hs, sortPairs_one, concatPairs]
   · simp [decProtectedContent, parseTop, parseItem, parsePairs, fuelFor, parseHead,
       maxNested, maxElems, labelsOK, maxInt64, GoVal.keyEq, decodePairs, decodeAny, keyHashable,
-      utf8Valid, bind, Out.bind]
+      utf8Valid, bind, Out.bind, Wire.stripSelfDescribed,
+      (by decide : headerLabelsUntagged [0xa1, 0x0f, 0xa2, 0x01, 0x61, 0x61, 0x01, 0x61, 0x62] = true)]
 
 /-- unprotected `{99: [[…[nil]…]]}` with 31 nested arrays -/
 def exDeep : Sign1Msg :=
